@@ -22,6 +22,7 @@ func runC13(c *mon.Ctx) {
 		"(b) CheckDH on the committed 2048-bit safe primes (Telegram production, RFC 3526 group 14, RFC 7919 ffdhe2048, 8 generated; re-verified at start) with g in -1..9, and on mutated moduli: p+-2, bit flips, 2p+1, (p-1)/2, 3p, -p, 2047/2049-bit safe primes, primes with composite (p-1)/2, composites with prime (p-1)/2, 2^2047, 2^2048-1 ...; oracle: 2^2047 < p < 2^2048, p and (p-1)/2 prime, g as in (a). " +
 		"(c) CheckDHParams on the complete cross product of 19 boundary values for g_a and g_b (0, 1, 2, p-2, p-1, p, 2^1984-1.., p-2^1984+1.., random inside) x 10 values of g for random 2048-bit moduli and degenerate moduli; InRange on random triples with x at and next to the bounds; oracle: the spec inequalities, strict. " +
 		"(d) DecomposePQ on all pairs of the first 300 primes (complete, includes squares and 2q), random balanced 32x32-bit semiprimes just below 2^63, squares, unbalanced, 2q and near-limit products; oracle: exactly (min, max) of the two primes the product was built from. " +
+		"(e) history: the same functions called in sequences inside one process (valid-then-every-invalid-g on the same p, every rejected modulus presented 3 times, interleaved with valid ones, from 2-4 goroutines with shuffled orders and at the same instant); oracle: the reference verdict regardless of position. " +
 		"distinct non-trivial = distinct (arm, g / boundary label / factor bit lengths, residue class or modulus class, expected outcome)")
 	c.Assume("math/big (Exp, ProbablyPrime, GCD) is correct; refmodel/crypto2_dh.go transcribes the inequalities of core.telegram.org/mtproto/auth_key")
 	c.Assume("DecomposePQ draws fresh randomness per attempt from the supplied source (seeded PCG here); a call that makes more than 512 attempts is reported as not returning (per-attempt failure probability is at most 0.75, measured exhaustively for pq=4, the worst case)")
@@ -33,7 +34,7 @@ func runC13(c *mon.Ctx) {
 	for _, arm := range []struct {
 		name string
 		f    func()
-	}{{"gp", func() { c13GP(c) }}, {"dh", func() { c13DH(c, ms) }}, {"range", func() { c13Range(c, ms) }}, {"pq", func() { c13PQ(c) }}} {
+	}{{"gp", func() { c13GP(c) }}, {"dh", func() { c13DH(c, ms) }}, {"range", func() { c13Range(c, ms) }}, {"history", func() { c13History(c, ms) }}, {"pq", func() { c13PQ(c) }}} {
 		t0 := time.Now()
 		arm.f()
 		c.Set("wall_s_arm_"+arm.name, math.Round(time.Since(t0).Seconds()*10)/10) // informational only
